@@ -9727,6 +9727,20 @@ impl<'a> Parser<'a> {
         let full = self.parse_keyword(Keyword::FULL);
         let session = self.parse_keyword(Keyword::SESSION);
         let global = self.parse_keyword(Keyword::GLOBAL);
+        // SESSION / GLOBAL belong to SHOW VARIABLES and SHOW STATUS only
+        if session || global {
+            let scoped = dialect_of!(self is MySqlDialect | GenericDialect)
+                && matches!(
+                    self.peek_token().token,
+                    Token::Word(w) if matches!(w.keyword, Keyword::VARIABLES | Keyword::STATUS)
+                );
+            if !scoped {
+                return self.expected(
+                    "VARIABLES or STATUS after SESSION / GLOBAL",
+                    self.peek_token(),
+                );
+            }
+        }
         if self
             .parse_one_of_keywords(&[Keyword::COLUMNS, Keyword::FIELDS])
             .is_some()
@@ -9734,26 +9748,26 @@ impl<'a> Parser<'a> {
             Ok(self.parse_show_columns(extended, full)?)
         } else if self.parse_keyword(Keyword::TABLES) {
             Ok(self.parse_show_tables(extended, full)?)
-        } else if self.parse_keyword(Keyword::FUNCTIONS) {
-            Ok(self.parse_show_functions()?)
         } else if extended || full {
             Err(ParserError::ParserError(
                 "EXTENDED/FULL are not supported with this type of SHOW query".to_string(),
             ))
+        } else if self.parse_keyword(Keyword::FUNCTIONS) {
+            Ok(self.parse_show_functions()?)
         } else if self.parse_one_of_keywords(&[Keyword::CREATE]).is_some() {
             Ok(self.parse_show_create()?)
         } else if self.parse_keyword(Keyword::COLLATION) {
             Ok(self.parse_show_collation()?)
-        } else if self.parse_keyword(Keyword::VARIABLES)
-            && dialect_of!(self is MySqlDialect | GenericDialect)
+        } else if dialect_of!(self is MySqlDialect | GenericDialect)
+            && self.parse_keyword(Keyword::VARIABLES)
         {
             Ok(Statement::ShowVariables {
                 filter: self.parse_show_statement_filter()?,
                 session,
                 global,
             })
-        } else if self.parse_keyword(Keyword::STATUS)
-            && dialect_of!(self is MySqlDialect | GenericDialect)
+        } else if dialect_of!(self is MySqlDialect | GenericDialect)
+            && self.parse_keyword(Keyword::STATUS)
         {
             Ok(Statement::ShowStatus {
                 filter: self.parse_show_statement_filter()?,
